@@ -349,6 +349,9 @@ class Flow:
         k = n.get('kind')
         if k == 'DeclRefExpr':
             rd = n.get('referencedDecl', {})
+            rl = s.get(('refloc', fr.key, rd.get('id')))
+            if rl is not None:
+                return rl
             if ('env', fr.key, rd.get('id')) in s.d:
                 return ('envvar', fr.key, rd.get('id'))
             if self.is_global_ref(n, fr):
@@ -402,6 +405,12 @@ class Flow:
         sd = tu.sd(n)
         if k == 'DeclRefExpr':
             rd = n.get('referencedDecl', {})
+            rl = s.get(('refloc', fr.key, rd.get('id')))
+            if rl is not None:
+                if rl[0] == 'envvar':
+                    v = s.get(('env', rl[1], rl[2]))
+                    return v if v is not None else Poly.atom(('uninit', rl[1], rl[2]))
+                return self.load(rl, s, sd.get('ct'))
             v = s.get(('env', fr.key, rd.get('id')))
             if v is not None:
                 return v
@@ -521,7 +530,7 @@ class Flow:
 
     def _leave(self, s, fr):
         key = fr.key
-        return s.drop(lambda k: k == '$ret' or (isinstance(k, tuple) and k[0] in ('env', 'ret', 'init', 'retloc') and k[1] == key))
+        return s.drop(lambda k: k == '$ret' or (isinstance(k, tuple) and k[0] in ('env', 'ret', 'init', 'retloc', 'refloc') and k[1] == key))
 
     def analyse(self, ti, fn, this=None, facts=None, env=None):
         """run entry function `fn` of translation unit index ti; -> list of Path (returning and terminated)"""
@@ -550,6 +559,9 @@ class Flow:
 
     # ------------------------------------------------------------------ edges
     def refine(self, blk, si, s, fr):
+        tn = fr.tu.node(blk.term) if blk.term else None
+        if tn is not None and tn.get('kind') == 'SwitchStmt' and blk.cond is not None:
+            return self.refine_switch(blk, si, s, fr)
         if blk.cond is None or len(blk.succ) != 2:
             if blk.cond is not None and len([x for x in blk.succ if x is not None]) > 1:
                 return [s.approx('multi-way branch at %s' % fr.tu.loc(blk.cond))]
@@ -607,6 +619,36 @@ class Flow:
         if t is not None:
             return [s] if t == want else []
         return self.add_facts(b, want, s, fr, c)
+
+    def refine_switch(self, blk, si, s, fr):
+        """edge si of a switch: taken iff the condition equals the label of the target block (default: none of the labels).
+        Values are compared as constants or as enumerators; anything else keeps the edge and marks the path approximate."""
+        tu = fr.tu
+        succ = blk.succ[si]
+        if succ is None:
+            return []
+        v = self.val(tu.node(blk.cond), s, fr)
+
+        def label_value(bid):
+            lb = fr.g.blocks[bid].label
+            ln = tu.node(lb) if lb else None
+            if ln is None or ln.get('kind') != 'CaseStmt' or not tu.kids(ln):
+                return None if ln is None or ln.get('kind') != 'DefaultStmt' else 'default'
+            return self.val(tu.kids(ln)[0], s, fr)
+
+        def comparable(x):
+            a = x.as_atom() if isinstance(x, Poly) else None
+            return isinstance(x, Poly) and (x.as_int() is not None or (isinstance(a, tuple) and a and a[0] == 'enum'))
+        labels = [(b, label_value(b)) for b in blk.succ if b is not None]
+        mine = label_value(succ)
+        if mine is None:
+            return [s]
+        if not comparable(v) or any(l is None or (l != 'default' and not comparable(l)) for _b, l in labels):
+            return [s.approx('multi-way branch at %s on a value that is not a constant or an enumerator' % tu.loc(blk.cond))] \
+                if self.tracked(s, v) else [s]
+        if mine == 'default':
+            return [] if any(l == v for _b, l in labels if l != 'default') else [s]
+        return [s] if mine == v else []
 
     def explain_wrap_tests(self, nf, ws, s, fr, cond_node=None):
         """`nf` is the (mathematically read) normal form of a condition that contains unsigned products which can wrap (`ws`).
@@ -1035,7 +1077,7 @@ class Flow:
             lt = tu.strip(lhs, casts=True)
             ty = (lt.get('type', {}).get('qualType', '') if lt else '')
             rd = lt.get('referencedDecl', {}) if lt else {}
-            if rd.get('type', {}).get('qualType', '').rstrip().endswith('&'):
+            if rd.get('type', {}).get('qualType', '').rstrip().endswith('&') and s.get(('refloc', fr.key, rd.get('id'))) is None:
                 s = s.approx('assignment through reference `%s` at %s is not modelled' % (tu.show(lhs), tu.loc(node)))
             return s.set(('env', loc[1], loc[2]), v)
         if loc[0] in ('deref', 'elem'):
@@ -1354,8 +1396,15 @@ class Flow:
                 return [s.approx('recursive call to %s at %s is not followed' % (q, loc)).set(rkey, Poly.atom(('unk', 'recursion', q)))]
             f = f.parent
         s2 = s
-        for p, v in zip(f2.get('params', []), argv):
-            s2 = s2.set(('env', fr2.key, p['id']), v)
+        for i, (p, v) in enumerate(zip(f2.get('params', []), argv)):
+            pct = (p.get('ct') or '').rstrip()
+            al = self.loc_of(args[i], s, fr) if (pct.endswith('&') and not pct.endswith('&&') and not pct.startswith('const ')
+                                                 and i < len(args)) else None
+            if al is not None and al[0] in ('envvar', 'glob', 'field'):
+                # non-const lvalue reference parameter: reads and writes in the callee go to the caller's location
+                s2 = s2.set(('refloc', fr2.key, p['id']), al)
+            else:
+                s2 = s2.set(('env', fr2.key, p['id']), v)
         outs = self.run_fn(fr2, s2)
         res = []
         for (s3, rv) in outs:
